@@ -33,6 +33,27 @@ add("C20", "exploration", "invariant walk over the live layout tables at the qui
     "node-by-node comparison of the walked layout with the pinned snapshot.",
     "Trusted: layout/pinned_layout.json (committed data).", "DESIGN.md 4/C20")
 
+add("C01", "exploration", "boundary trace of the strict decoder compared event-by-event with an executable reference model over a pinned layout snapshot",
+    "Complete event lists (path, declared type, value, value class) of the real strict decoder are compared with an independent "
+    "reference interpreter on generated encodings of all 232 non-union types, all 117 codes x 2 directions x 12 configurations, "
+    "every selector value, and the captured corpus. Held on the executions observed; anchors prove every walker ran.",
+    "Trusted: pinned layout snapshot, the reference's framing rules; generator/reference self-check.", "DESIGN.md 4/C01")
+add("C03", "fault_enumeration", "size-fault enumeration on recorded decodes checked against the reference's region model (class, path, limit, counted, offender, events before)",
+    "Exhaustive per message over the listed perturbations of every size/count field, plus exhaustive small-alphabet strings for "
+    "10 nested size-prefixed types (real and synthetic); every strict outcome is compared in class, details and preceding events.",
+    "Trusted: reference region model. Tolerances: simultaneous violations (any region), overrun beyond end of input may be 'depleted'.", "DESIGN.md 4/C03")
+add("C04", "fault_enumeration", "value-fault enumeration on recorded decodes checked against the pinned allowed sets (iff, first offender, details, events before)",
+    "Every constrained leaf of the base messages is set to boundary, just-outside and far-outside values; acceptance iff in the "
+    "pinned set, error details and allowed-set membership probes compared.",
+    "Trusted: pinned allowed sets.", "DESIGN.md 4/C04")
+add("C05", "fault_enumeration", "truncation at every byte offset and appended suffixes, outcome and command_code attribute checked against the reference's spans and message boundaries",
+    "Exhaustive per input over all cut points (incl. the empty input) for structures, commands, responses and streams.",
+    "Trusted: reference spans/boundaries. Tolerances for command_code as listed in DESIGN.md 5.1.", "DESIGN.md 4/C05")
+add("C13", "fault_enumeration", "byte-conservation law checked on every recorded strict rejection (emitted + offending + remaining = input)",
+    "All strict rejections of the size/value fault enumeration and of the exhaustive small-alphabet strings are checked, including "
+    "problems detected on the very last byte (counted in the evidence).",
+    "Trusted: region end of an overrun taken from the reference (fallback: the error's own figures).", "DESIGN.md 4/C13")
+
 NOT_YET = "monitor not built yet in this phase; will be claimed once validated on the unchanged tree"
 
 
